@@ -56,6 +56,10 @@ pub struct Behaviour {
     /// Some(n): only the first n keep-alive requests of a connection are answered, then the peer
     /// stays silent (but keeps reading and keeps the connection open)
     pub heartbeat_limit: Option<usize>,
+    /// streams opened to the UDP-over-TCP magic address: every packet is echoed back, its framing
+    /// (2-byte prefix + payload) cut into separate data frames at these positions, with this pause
+    /// between the frames
+    pub uot_echo: Option<(Vec<u16>, u64)>,
 }
 
 #[derive(Default, Debug)]
@@ -154,6 +158,7 @@ async fn serve(tls: &mut tokio_rustls::server::TlsStream<TcpStream>, password: &
     let mut buf = vec![0u8; 1 << 16];
     let mut streams: std::collections::HashMap<u32, (Vec<u8>, bool)> = Default::default();
     let mut heart_seen = 0usize;
+    let mut uot: std::collections::HashMap<u32, (Vec<u8>, bool)> = Default::default();
     loop {
         let n = tls.read(&mut buf).await?;
         if n == 0 {
@@ -203,7 +208,50 @@ async fn serve(tls: &mut tokio_rustls::server::TlsStream<TcpStream>, password: &
                                 None => {}
                             }
                         }
-                        if beh.echo && !data.is_empty() {
+                        let is_uot = log.lock().unwrap().dests.iter().any(|(sid, d)| *sid == f.sid && d.windows(20).any(|w| w == b"v2.udp-over-tcp.arpa"));
+                        if is_uot && beh.uot_echo.is_some() {
+                            // reference UoT peer: request header first, then [len][payload] packets
+                            let acc = uot.entry(f.sid).or_insert_with(|| (Vec::new(), false));
+                            acc.0.extend_from_slice(&data);
+                            if !acc.1 {
+                                // isConnect(1) + SOCKS address
+                                if acc.0.len() >= 2 {
+                                    if let Some(k) = socks_addr_len(&acc.0[1..]) {
+                                        if k != usize::MAX && acc.0.len() >= 1 + k {
+                                            acc.0.drain(..1 + k);
+                                            acc.1 = true;
+                                        }
+                                    }
+                                }
+                            }
+                            if acc.1 {
+                                loop {
+                                    if acc.0.len() < 2 {
+                                        break;
+                                    }
+                                    let l = u16::from_be_bytes([acc.0[0], acc.0[1]]) as usize;
+                                    if acc.0.len() < 2 + l {
+                                        break;
+                                    }
+                                    let pkt: Vec<u8> = acc.0.drain(..2 + l).collect();
+                                    // echo it back in pieces
+                                    let (cuts, pause) = beh.uot_echo.clone().unwrap();
+                                    let mut pts: Vec<usize> = cuts.iter().map(|c| ((*c as usize) * (pkt.len() + 1)) >> 16).filter(|p| *p > 0 && *p < pkt.len()).collect();
+                                    pts.sort_unstable();
+                                    pts.dedup();
+                                    pts.push(pkt.len());
+                                    let mut from = 0usize;
+                                    for (i, p) in pts.iter().enumerate() {
+                                        tls.write_all(&rc::encode(&RFrame::new(rc::PSH, f.sid, pkt[from..*p].to_vec()))).await?;
+                                        tls.flush().await?;
+                                        from = *p;
+                                        if i + 1 < pts.len() && pause > 0 {
+                                            tokio::time::sleep(Duration::from_millis(pause)).await;
+                                        }
+                                    }
+                                }
+                            }
+                        } else if beh.echo && !data.is_empty() {
                             outgoing.extend(rc::psh_frames(f.sid, &data));
                         }
                     }
